@@ -1,12 +1,15 @@
 from . import streams_codec, cli, streams_ugrid, streams_gathermeshb
 from . import streams_partmeshb
+from . import streams_formats
 
 ID = 'C08'
 PROPS_MODULE = ['Refine.Props.C08', 'Refine.Props.C08Endian', 'Refine.Props.C08Ugrid', 'Refine.Props.C08Gather',
-                'Refine.Props.C08Part']
+                'Refine.Props.C08Part', 'Refine.Props.C08Formats']
 STREAMS = [streams_codec.MESHB_WRITE, streams_codec.MESHB_READ, cli.CONVERT, cli.CONVERT_MPI,
            streams_ugrid.WRITE, streams_ugrid.READ, streams_ugrid.PART, streams_ugrid.GATHER,
-           streams_gathermeshb.GATHERMESHB, streams_partmeshb.READ]
+           streams_gathermeshb.GATHERMESHB, streams_partmeshb.READ,
+           streams_formats.WRITE, streams_formats.READ, streams_formats.C08_MSH_O2N, streams_formats.C08_MSH_FLIP,
+           streams_formats.C08_SU2_TAG, streams_formats.C08_SU2_NOBND]
 EXPLANATION = (
     'Proved in Lean (Refine/Props/C08.lean): decodeMeshb (encodeMeshb v m) = ok m for every WellFormed mesh and '
     'v in {2,3,4} (all 16 cell groups, vertex coordinates as bit patterns, ids, geometry records with gref as a '
@@ -70,7 +73,19 @@ EXPLANATION = (
     'records are NOT in the theorem (tied only).  Tie: partmeshb_read (np 1..5: files from the independent writer '
     'checks/meshio_ref.py, versions 2/3/4, 2-D/3-D, all cell kinds incl. pyramids and high-order, geometry records, '
     'CAD bytes with all 256 values; per-rank dump == model; python oracle: gathered == file); the chunk-crossing '
-    'stream partmeshb_chunk runs under C06.')
+    'stream partmeshb_chunk runs under C06.  '
+    'TEXT FORMATS (work package formats; Refine/Model/Formats.lean, Props/C08Formats.lean): ref_export_ugrid / _tri / _fgrid / '
+    '_su2 / _msh and ref_import_ugrid / _tri / _surf / _fgrid / _su2 / _msh / _i_like_cfd_grid / _r8_ugrid at token level '
+    '(numbers as the bit pattern strtod returns for the %.16e text).  FORMATS_THEOREMS.  Tie: formats_write — the tokens of the file ref_export_by_extension writes == encodeX m '
+    '(meshes with all kinds, removed vertex slots, 2-D SU2 with edge markers) and export + import == decodeX (encodeX m); '
+    'oracle: the independent parsers of checks/streams_formats.py (written from the AFLR3, FAST, SU2, Gmsh 4.1 format '
+    'descriptions) read what refine wrote: vertices bitwise, cells with orientation and ids in the documented order (boundary '
+    'faces by id).  formats_read — the static readers on files from the independent writers (multi-block $Nodes, CR LF line '
+    'ends, .surf with trailing columns, .grid boundary chains, big-endian .r8.ugrid records) == model == mesh.  KNOWN FINDINGS, '
+    'one stream each: msh-export-skips-renumbering (cells written with stored vertex numbers next to a compacted vertex '
+    'block), msh-roundtrip-reverses-faces, su2-marker-tag-ignored (ids i come back as i - min + 1), su2-export-no-marker-'
+    'overflow; theorems msh_export_renumber_counterexample, msh_faces_counterexample, su2_tags_counterexample show them on '
+    'the model and show that the proposed reader repairs restore the mesh.')
 ASSUMPTIONS = [
     'parallel READER ref_part_meshb: Props/C08Part.lean (gather is a spec-level definition there: owner-filtered '
     'concatenation; geometry-association records are tied only)',
@@ -82,7 +97,14 @@ ASSUMPTIONS = [
     '2*10^8 vertices, regenerated constants) are reached only by the theorem; an unowned vertex makes ref_gather_meshb return '
     'before fclose (the partial file is not compared); with N = 0 the parallel writer still writes an empty vertex keyword '
     'which the serial writer omits (outside WellFormed: nodes_pos)',
-    'binary ugrid: modelled and tied (Refine.Model.Ugrid); su2, msh, fgrid, ascii .ugrid, .r8.ugrid are not covered.  '
+    'binary ugrid: modelled and tied (Refine.Model.Ugrid); ascii .ugrid, .tri, .fgrid, .su2, .msh (writers + readers), .surf, '
+    '.grid, .r8.ugrid (readers) are modelled at token / byte level and tied (package formats); decimal printing and parsing '
+    'themselves are not modelled (%.16e prints 17 significant digits, which strtod maps back to the same double: C library); '
+    '.msh2, -bamg.msh, .poly, .smesh, .vtk, .tec writers and the .avm / tetgen readers are not covered; the .grid writer '
+    '(ref_export_i_like_cfd_grid counts its quads with `ntri++` and then fails its own REIS for any mesh with quads) is not '
+    'modelled; .tri is generated with every vertex used by a triangle (ref_export_tri drops unused vertices); SU2 meshes of '
+    'the clean streams have boundary ids starting at 1; .msh meshes of the clean streams have no removed slot and no bare '
+    'triangle / quad (those are the finding streams).  '
     'ugrid: the generated test meshes keep boundary faces and volume cells on disjoint vertex sets so that '
     'ref_grid_inward_boundary_orientation (outside the model, run by ref_import_by_extension / ref_part_bin_ugrid) has '
     'nothing to flip; tag spread per mesh < 7 and tags < INT_MAX - 50 (the serial writer sweeps the tag RANGE: finding '
